@@ -79,6 +79,15 @@ PROPS = {
                      "JSON content clause: the `expected` text of an Insert op records only the first inserted line; a formatter-reachable (original, formatted) pair with a pure multi-line insertion was not found "
                      "(every line the formatter adds comes from splitting a line that thereby changes => Replace op), so the clause is restricted to ranges (DESIGN §6.4)"],
         assumptions=["similar::TextDiff::grouped_ops(0): ops are non-empty and there is none iff the texts are equal (class B)"]),
+    "C15": dict(units=["config"], bounded=[dict(kind="cli", scenario="config_search")],
+        explanation="real text of load_overrides, lookup_config_file_in_directory, find_config_file (recursive, memoised) and load_configuration against a ghost file system: "
+                    "find_config_file equals the recursive spec search(dir, root) (nearest stylua.toml/.stylua.toml walking up, stopping at cwd, or root + XDG/HOME with --search-parent-directories), "
+                    "keeps the memo-table invariant (every cached entry is the search result of its directory); load_configuration implements forced > found > editorconfig (unless disabled) > default; "
+                    "load_overrides overrides exactly the fields given on the command line.",
+        not_decided=["`the result on disk equals the library's output for that configuration`: format_file's contract (C14) is stated for the Config it is given; that format() passes the resolved one is inline code",
+                     "search_config_locations (XDG/HOME env vars) and load_configuration_for_stdin's stdin-filepath branch: assumed / not under contract",
+                     "toml deserialisation of the file contents (serde derive)"],
+        assumptions=["Path::parent/join/exists, fs, env behave like the ghost file system (wrappers, class B); paths are finite (depth decreases towards the root)"]),
     "C02": dict(units=["expr", "block", "lib", "tok"],
         explanation="expression spine: same obligations as C05 (operator tree, leaves, operators)",
         not_decided=["statement/block/args/token layers are decided in their own units (see runs)"],
@@ -132,6 +141,7 @@ LIB_WITNESSES = [
 ]
 def cli(s): return dict(kind="cli", scenario=s)
 WITNESSES = {
+    "C15.": [cli("config_search")],
     "C14.": [cli("write_only_formatted_text"), cli("check_never_writes")], "C13.": [cli("check_never_writes")], "C17.": [cli("stdin_stdout_only")],
     "C18.": [cli("json_diff_reconstructs"), cli("unified_diff_reconstructs"), cli("check_never_writes")],
     "C01.output_is_printed_ast": LIB_WITNESSES, "C01.verified": LIB_WITNESSES, "C12.sort_iff_enabled": LIB_WITNESSES, "C02.whole_ast": LIB_WITNESSES,
@@ -146,6 +156,5 @@ NOT_APPLICABLE = {
     "C19": "a schedule property of std atomics and a thread pool; Kani has no threads and Verus needs its own permission-carrying atomics which the real code does not use (DESIGN.md §9)",
     "C07": "not claimed yet: aggregate of the per-function panic/termination obligations is under construction",
     "C12": "not claimed yet: unit sort under construction",
-    "C15": "not claimed yet: unit config under construction",
     "C20": "not claimed yet: Kani harnesses for the option conversions under construction",
 }
